@@ -50,6 +50,8 @@ SAN_RE = re.compile(r"(error: Undefined Behavior|error: memory leaked|error: dea
 def env_for(tool):
     e = dict(os.environ, CARGO_NET_OFFLINE="true")
     e.pop("RUSTFLAGS", None)
+    # generators that leak on purpose (a transaction abandoned with mem::forget) stay off under leak checkers
+    e["VH_NO_LEAKS"] = "1"
     if tool == "miri":
         e["MIRIFLAGS"] = "-Zmiri-tree-borrows -Zmiri-disable-isolation"
         e["CARGO_TARGET_DIR"] = os.path.join(HARNESS, "target-miri")
